@@ -382,15 +382,18 @@ class ComponentIDComboHelper(ComboHelper):
         return msg.sender in self._data
 
     def register_to_hub(self, hub):
+        # We use a high priority so that the choices (and hence the selection)
+        # are up to date before e.g. viewers react to the same message and
+        # make use of the selected component.
         hub.subscribe(self, DataRenameComponentMessage,
                       handler=self._on_rename,
-                      filter=self._filter_msg)
+                      filter=self._filter_msg, priority=100)
         hub.subscribe(self, DataReorderComponentMessage,
                       handler=self.refresh,
-                      filter=self._filter_msg)
+                      filter=self._filter_msg, priority=100)
         hub.subscribe(self, ComponentsChangedMessage,
                       handler=self.refresh,
-                      filter=self._filter_msg)
+                      filter=self._filter_msg, priority=100)
         if self._data_collection is not None:
             hub.subscribe(self, DataCollectionDeleteMessage,
                           handler=self._remove_data)
